@@ -33,6 +33,24 @@ func (m *C14) OnCall(e *sim.Env, c *sim.Call) {
 		}
 	case "query":
 		p := c.QReq.Path
+		if strings.HasPrefix(p, "/custom/") && c.Panic == "" && c.QReq.Height != 0 {
+			// a module query for an explicit height that is pruned or does not exist yet is refused: it is not answered
+			// from another height
+			h := c.QReq.Height
+			switch {
+			case h < 0 || h > e.H:
+				e.Count("c14.custom_queries_at_future_heights")
+				if c.ResQuery.Code == 0 {
+					e.Violate("C14", "custom-query-answers-for-future-height", fmt.Sprintf("%s at height %d (latest %d) returned code 0 with %d bytes", p, h, e.H, len(c.ResQuery.Value)), c)
+				}
+			case !storechk.Retained(h, e.H, e.Init.Pruning):
+				e.Count("c14.custom_queries_at_pruned_heights")
+				if c.ResQuery.Code == 0 {
+					e.Violate("C14", "custom-query-answers-for-pruned-height", fmt.Sprintf("%s at height %d (latest %d, pruning %v) returned code 0 with %d bytes", p, h, e.H, e.Init.Pruning, len(c.ResQuery.Value)), c)
+				}
+			}
+			return
+		}
 		if !strings.HasPrefix(p, "/store/") || !strings.HasSuffix(p, "/key") {
 			return
 		}
